@@ -553,7 +553,7 @@ func stress(run *vk.Run) {
 
 // lonely: a packet added while the sender goroutine is just finishing a Send, with nothing coming after it.
 // Ping-pong on the real packetQueue + pollAndSend: add A; while the sender is inside Send(A) (random spin of
-// 0..0.5 us) add B after a random spin; then nothing else is added. B must be sent promptly: 200 ms of
+// 0..0.5 us) add B after a random spin; then nothing else is added. B must be sent promptly: 500 ms of
 // idleness with B queued means it was left to be flushed by some later packet.
 func lonely(run *vk.Run) {
 	q := sio.VerifNewPacketQueue()
@@ -591,7 +591,7 @@ func lonely(run *vk.Run) {
 		}
 		spin(spins[(i*13+1)%4096] * 2)
 		q.Add(pkt("B"))
-		deadline := time.Now().Add(200 * time.Millisecond)
+		deadline := time.Now().Add(500 * time.Millisecond)
 		for sentN.Load() < base+2 && time.Now().Before(deadline) {
 			if sentN.Load() == base+1 {
 				runtime.Gosched()
@@ -601,7 +601,7 @@ func lonely(run *vk.Run) {
 		if sentN.Load() < base+2 {
 			stranded++
 			run.Violation(vk.Violation{Sub: "lost-wakeup", Fields: map[string]any{"queue": "packetQueue", "mode": "lonely-packet"},
-				What:    fmt.Sprintf("iteration %d: a packet added while the sender goroutine was finishing the previous Send was still queued 200 ms later with the sender idle (%d of 2 sent): it waits for some later packet to flush it", i, sentN.Load()-base),
+				What:    fmt.Sprintf("iteration %d: a packet added while the sender goroutine was finishing the previous Send was still queued 500 ms later with the sender idle (%d of 2 sent): it waits for some later packet to flush it", i, sentN.Load()-base),
 				Witness: map[string]any{"iteration": i, "seed": run.Seed()}})
 			q.Add(pkt("flush"))
 			vk.WaitUntil(2*time.Second, func() bool { return sentN.Load() >= base+3 })
